@@ -142,12 +142,17 @@ def pratt(ctx, r):
                 rels = [r_ for r_ in (prec_rel(c_, pol) for c_, pol in atoms) if r_]
                 conts.append(rels)
     want = f"(op.precedence()<={param})"
-    ok = lp is not None and len(breaks) >= 2 and all(b == ["le"] for b in breaks) and len(conts) >= 2 and all(c_ == ["gt"] for c_ in conts)
+    # two consistent ways to write the loop: stop at `prec <= power` and recurse with `prec`, or stop at `prec < min` and
+    # recurse with `prec + 1` (the argument then is the smallest power that may still be consumed)
+    form_a = lp is not None and len(breaks) >= 2 and all(b == ["le"] for b in breaks) and len(conts) >= 2 and all(c_ == ["gt"] for c_ in conts)
+    form_b = lp is not None and len(breaks) >= 2 and all(b == ["lt"] for b in breaks) and len(conts) >= 2 and all(c_ == ["ge"] for c_ in conts)
+    ok = form_a or form_b
     r.ob(ok, "parse.rs:parse_expr_bp:break-condition", PARSE, f["l"],
          f"binary and postfix operators must stop the loop exactly when `op.precedence() <= {param}` (strictly greater continues: left associativity); the loop is left under {breaks} and operators are consumed under {conts}", sample=f"parse_expr_bp: break iff {want}")
     recs = [q.show(x["args"][0]).replace(" ", "") for x in q.walk(f["body"]) if x["k"] == "MethodCall" and x["m"] == "parse_expr_bp"]
-    r.ob(len(recs) >= 2 and all(a == "op.precedence()" for a in recs), "parse.rs:parse_expr_bp:recursion-power", PARSE, f["l"],
-         f"the right operand of a binary or prefix operator must be parsed with the operator's own precedence; recursion arguments are {recs}", sample=f"parse_expr_bp: recurses with {recs}")
+    want_rec = {"op.precedence()"} if not form_b else {"op.precedence()+1", "(op.precedence()+1)", "1+op.precedence()"}
+    r.ob(len(recs) >= 2 and all(a in want_rec for a in recs), "parse.rs:parse_expr_bp:recursion-power", PARSE, f["l"],
+         f"the operand of a binary or prefix operator must be parsed with {'the operator precedence itself' if not form_b else 'the operator precedence plus one (the loop stops below its argument)'}, in the prefix branch as in the binary one; recursion arguments are {recs} - a prefix operator that recurses with its bare precedence in this form swallows the binary operators of its own level (`-a + b` becomes `-(a + b)`)", sample=f"parse_expr_bp: recurses with {recs}")
     # left operand first: BinOp(lhs, op, rhs)
     cons = [x for x in q.walk(f["body"]) if x["k"] == "Call" and q.show(x["f"]) == "ExprKind::BinOp"]
     r.ob(bool(cons) and [q.show(a) for a in cons[0]["args"]] == ["lhs", "op", "rhs"], "parse.rs:parse_expr_bp:operand-order", PARSE, f["l"], "BinOp must be built as (lhs, op, rhs)", sample="BinOp(lhs, op, rhs)")
@@ -276,6 +281,16 @@ def scan_term(ctx, r):
             lets = {q.pat_bindings(x["pat"])[0]: q.show(x["e"]) for x in q.walk(lp["c"]) if x["k"] == "Let" and q.pat_bindings(x["pat"])}
             a1, a2 = lets.get(star[0], ""), lets.get(slash[0], "")
             r.ob("(next)" in a1.replace(" ", "") and "(next+1)" in a2.replace(" ", ""), "lexer.rs:block-comment:adjacent-chars", LEX, lp["l"], f"the terminator test must look at adjacent characters: `*` at {a1}, `/` at {a2}")
+            # the search for the terminator starts behind the two characters of the opener: the `*` of `/*` is not the `*` of `*/`
+            import re as _re
+
+            mv = _re.search(r"\((\w+)\)", a1.replace(" ", ""))
+            scan = mv.group(1) if mv else "next"
+            inits = [x for x in q.walk(enclosing_if_then(slash_arm["body"], lp)) if x["k"] == "Local" and x.get("init") is not None and q.pat_bindings(x["pat"]) == [scan] and x["l"] <= lp["l"]]
+            start = q.show(inits[-1]["init"]) if inits else None
+            r.ob(start == "2", "lexer.rs:block-comment:scan-starts-inside-the-opener", LEX, lp["l"],
+                 f"the scan for `*/` starts at offset {start} from the `/` of the opener; it must start at 2, behind `/*`: starting at 1 lets the opener's own `*` pair with a `/` that begins the comment text, so `/*/ text */` ends after three characters and the text is lexed as code",
+                 sample="block comment: scan starts at offset 2")
             adv = [q.show(x["b"]).replace(" ", "") for x in q.walk(enclosing_if_then(slash_arm["body"], lp)) if x["k"] == "Binary" and x["op"] == "+=" and q.show(x["a"]).endswith("." + POS)]
             r.ob(adv == ["(next+2)"], "lexer.rs:block-comment:terminator-length", LEX, lp["l"], f"after the loop the cursor must skip the 2-character terminator; it advances by {adv}", sample="block comment: index += next + 2")
     r.ob(found_block, "lexer.rs:block-comment:loop", LEX, slash_arm["l"], "no block-comment skip loop found")
